@@ -744,6 +744,7 @@ def _drop_veciter(d, st, v, why):
 
 
 DROP_MODELS['Vec'] = _drop_vec
+DROP_MODELS['VecSnapshot'] = lambda d, st, v, why: None
 DROP_MODELS['VecIter'] = _drop_veciter
 
 
